@@ -74,6 +74,13 @@ MUTANTS = [
     ("cx-prepare-noguard", "C10", "src/pomerol/FieldOperator.cpp", "void CreationOperator::prepare(void)\n{\n    if (Status >= Prepared) return;\n", "void CreationOperator::prepare(void)\n{\n"),
     ("sus-no-autoprepare", "C14", "src/pomerol/Susceptibility.cpp", "    if(Status<Prepared) prepare();\n", "\n"),
     ("h-prepare-noguard", "C03", "src/pomerol/Hamiltonian.cpp", "    if (Status >= Prepared) return;\n", "\n"),
+    # the term container (spec/TermList.tla)
+    ("termlist-insert-direct", "C02", "include/pomerol/TermList.h", "                add_term(sum);", "                data.insert(sum);"),
+    ("termlist-negligible-divisor", "C02", "include/pomerol/TermList.h", "if(!is_negligible(sum, data.size() + 1))", "if(!is_negligible(sum, 1))"),
+    ("gfterm-negligible-real", "C01", "include/pomerol/GreensFunctionPart.h", "return std::abs(t.Residue) < Tolerance / ToleranceDivisor;", "return std::real(t.Residue) < Tolerance / ToleranceDivisor;"),
+    ("resterm-negligible-or", "C02", "include/pomerol/TwoParticleGFPart.h", "return std::abs(t.ResCoeff) < Tolerance / ToleranceDivisor &&\n                       std::abs(t.NonResCoeff) < Tolerance / ToleranceDivisor;", "return std::abs(t.ResCoeff) < Tolerance / ToleranceDivisor ||\n                       std::abs(t.NonResCoeff) < Tolerance / ToleranceDivisor;"),
+    ("nrterm-merge-weight", "C02", "src/pomerol/TwoParticleGFPart.cpp", "    Weight=combinedWeight;\n    Coeff += AnotherTerm.Coeff;", "    Coeff += AnotherTerm.Coeff;"),
+    ("susterm-merge-drop", "C14", "src/pomerol/SusceptibilityPart.cpp", "    Residue += AnotherTerm.Residue;\n    return *this;", "    Residue = AnotherTerm.Residue;\n    return *this;"),
     ("lattice-orbital-check", "C20", "src/pomerol/Lattice.cpp", "if (T->Orbitals[i]>=Sites[T->SiteLabels[i]]->OrbitalSize)", "if (T->Orbitals[i]>Sites[T->SiteLabels[i]]->OrbitalSize)"),
     ("lattice-zero-filter", "C20", "src/pomerol/Lattice.cpp", "if ( std::abs(T->Value) ) Terms->addTerm(T);", "Terms->addTerm(T);"),
     ("getsite-inverted", "C20", "src/pomerol/Lattice.cpp", "if (it1==Sites.end()) throw (exWrongLabel());", "if (it1!=Sites.end()) throw (exWrongLabel());"),
